@@ -67,7 +67,7 @@ theorem flushDb_frame (s s' : State) (i j : Nat) (h : j ≠ i) (hs : flushDb s i
     s'.dbs.get j = s.dbs.get j := by
   unfold flushDb at hs
   split at hs
-  · simp at hs
+  · simp at hs; rw [← hs]
   · simp at hs; rw [← hs]; simp [NMap.get_put_other _ _ _ _ (Ne.symm h)]
 
 theorem mutObj_frame (s : State) (i j : Nat) (k : Bytes) (v : Val) (h : j ≠ i) :
